@@ -285,7 +285,13 @@ def rule_n4(ck, prog, spec):
             else:
                 ck.holds("C04-N4", st, K.loc(f, ints[0]), "non-decimal literals decoded with %s" % ints[0]["callee"])
         else:
-            ck.holds("C04-N4", st, K.loc(f, ints[0]), "non-decimal literals decoded with %s" % ints[0]["callee"], nontrivial=False)
+            narrow = [c for c in ints if not c["callee"].endswith("64")]
+            if narrow:
+                ck.violated("C04-N4", st, K.loc(f, narrow[0]),
+                            "SCPI_ParamToFloat decodes #H/#Q/#B literals through %s: a literal above 2^32 is delivered modulo 2^32 "
+                            "(`#H100000001` gives 1.0 instead of 4294967297 rounded to float)" % narrow[0]["callee"])
+            else:
+                ck.holds("C04-N4", st, K.loc(f, ints[0]), "non-decimal literals decoded with %s" % ints[0]["callee"])
 
 
 def rule_n7(ck, prog):
